@@ -16,6 +16,7 @@ use crate::verif_oracle::*;
 
 pub mod cases;
 pub mod cases_cleanup;
+pub mod cases_offset;
 pub mod cases_parent;
 pub mod cases_recursive;
 pub mod cases_seq;
@@ -101,6 +102,21 @@ unsafe impl PageTableFrameMapping for PoolMap {
 /// stray access.
 pub fn stub_as_ptr<T>(a: VirtAddr) -> *const T {
     mmu_resolve(a.as_u64()) as *const T
+}
+/// S-ptr stub of the OffsetPageTable instances: the complete physical memory is mapped at `OFFSET_BASE`, so a
+/// pointer is `OFFSET_BASE + physical address`; it resolves to the pool table with that physical address, and to
+/// a stray access for any other frame.  (The pointer computation itself -- `offset + frame address` -- is the
+/// crate's `PhysOffset::frame_to_pointer` and runs unstubbed; it is decided for all values in `c09_offset_*`.)
+pub const OFFSET_BASE: u64 = 0xffff_9000_0000_0000;
+pub fn stub_as_ptr_offset<T>(a: VirtAddr) -> *const T {
+    let phys = a.as_u64().wrapping_sub(OFFSET_BASE);
+    match pool_index(phys) {
+        Some(k) => unsafe { core::ptr::addr_of_mut!(POOL[k]) as *const T },
+        None => unsafe {
+            STRAY_ACCESS = true;
+            core::ptr::addr_of_mut!(SINK) as *const T
+        },
+    }
 }
 pub fn mmu_resolve(a: u64) -> *mut PageTable {
     let mut k = 0usize;
